@@ -13,6 +13,11 @@ Line-protocol front end of the C10 model (requests after the leading `C10` field
        A   := i (variable v_i) | c<n> | cm<n> (literal n / -n) | t<i> (nested call tick_i()) | d<A> (nested call dbl(A))
        body: e = returns, f = raises, p = Go panic in a builtin it calls, o = Go panic by frame overflow (both `Body.panic`)
        obs := B | u | sp:t:slice:v.v.v | ran:R | w:R        R := (r|e|p) "." v.v.v     (sp: v.v.v = spawner's variables after the statement)
+  net <cap,…> <nop,nop,…>             → <obs,…> TAB <thread;thread;…> TAB <chan;chan;…>        (thread tree, the code as it is)
+       nop    := ch:k:<op> | sp:p | ret:t | w:w:t | ab:t | cancel          (<op> as in chanops, its own fields separated by `:`)
+       obs    := B | <chanops obs> | sp:t | u | ab
+       thread := t:parent:returned(0|1):ctxdone-now(0|1):abortable-at-some-point(0|1)
+       chan   := buflen:closed:sent:dequeued:delivered:pending
 -/
 namespace Risor.C10
 open Risor.Util
@@ -96,6 +101,37 @@ def showTObs : Option TObs → String
   | some (.ran r) => "ran:" ++ showOutcome r
   | some (.waited r) => "w:" ++ showOutcome r
 
+def parseNOp (s : String) : Option NOp :=
+  match s.splitOn ":" with
+  | "ch" :: k :: rest => do pure (.chan (← natOf k) (← parseOp (":".intercalate rest)))
+  | ["sp", p] => do pure (.spawn (← natOf p))
+  | ["ret", t] => do pure (.ret (← natOf t))
+  | ["w", w, t] => do pure (.wait (← natOf w) (← natOf t))
+  | ["ab", t] => do pure (.abort (← natOf t))
+  | ["cancel"] => some .cancel
+  | _ => none
+
+def showNObs : Option NObs → String
+  | none => "B"
+  | some (.chan ob) => showObs (some ob)
+  | some (.spawned t) => "sp:" ++ toString t
+  | some .unit => "u"
+  | some .aborted => "ab"
+
+/-- threads for which `abort` is enabled in `s` -/
+def abortable (s : Net) : List Nat := (List.range s.ctx.length).filter fun t => live s t && ctxDone s t
+
+/-- observations of a schedule of the thread tree (the code as it is), the final state, and
+    every thread whose channel operations could have been cut short at some point -/
+def netTrace (s : Net) (ab : List Nat) : List NOp → List (Option NObs) × Net × List Nat
+  | [] => ([], s, ab ++ abortable s)
+  | o :: os =>
+    match nstep s o with
+    | some (s', ob) => let (r, sf, abf) := netTrace s' (ab ++ abortable s) os; (some ob :: r, sf, abf)
+    | none => let (r, sf, abf) := netTrace s ab os; (none :: r, sf, abf)
+
+def b01 (b : Bool) : String := if b then "1" else "0"
+
 def joinC (xs : List String) : String := if xs.isEmpty then "-" else ",".intercalate xs
 
 def handle : List String → String
@@ -120,6 +156,19 @@ def handle : List String → String
     | some vars, some shared, some ops =>
       joinC ((ttrace tstep { vars := vars, shared := shared } ops).map showTObs)
     | _, _, _ => "error\tbad-request"
+  | ["net", caps, ops] =>
+    match (listOf "," caps).mapM natOf, (listOf "," ops).mapM parseNOp with
+    | some caps, some ops =>
+      let (obs, sf, ab) := netTrace (ninit caps) [] ops
+      let threads := (List.range sf.ctx.length).map fun t =>
+        toString t ++ ":" ++ toString (sf.parent.getD t 0) ++ ":" ++ b01 (isReturned sf t) ++ ":" ++ b01 (ctxDone sf t)
+          ++ ":" ++ b01 (ab.contains t)
+      let chans := sf.chans.map fun c =>
+        toString c.buf.length ++ ":" ++ toString c.closed ++ ":" ++ toString c.sent.length ++ ":" ++ toString c.deq.length
+          ++ ":" ++ toString c.deliv.length ++ ":" ++ toString c.pend.length
+      joinC (obs.map showNObs) ++ "\t" ++ (if threads.isEmpty then "-" else ";".intercalate threads) ++ "\t"
+        ++ (if chans.isEmpty then "-" else ";".intercalate chans)
+    | _, _ => "error\tbad-request"
   | _ => "error\tunknown-request"
 
 end Risor.C10
